@@ -168,6 +168,8 @@ BLOCKS = [
     'URL /api/{lang}/items/{id}/rpc4\n  Protocol json-rpc-2.0\n  Method m4\n    Params\n      [1]\n    Result\n      {}\n',
     'TAG @sub\n  TAG @subsub\nGET /t\n  Tags @sub @subsub @api\n  200 any\n',
     'GET /rxp/{id}\n  Path\n  {\n    "id": @prx\n  }\n  200 any\n',
+    'GET /.\n  200 any\nURL /./.\n  POST\n    200 any\nGET //.\n  200 any\n',
+    'URL /.\n  Protocol json-rpc-2.0\n  Method dot\n    Result\n    {}\nGET /..\n  200 any\nGET /./..//\n  200 any\n',
     'URL /rxq/{id}\n  Path\n  {\n    "id": "abc" // {type: "@prx"}\n  }\n  GET\n    200 any\n',
     'GET /rxr/{id}\n  Path\n  {\n    "id": 1 // {or: ["@prx", "integer"]}\n  }\n  200 any\n',
     'GET /rxs/{id}\n  Path\n  {\n    "id": @pany\n  }\n  200 any\n',
